@@ -266,8 +266,11 @@ func execRun(rec *proto.RunRec, free bool) runOutcome {
 			die("simulator fault: %s", f)
 		}
 		if out.sim.Deadlock {
-			out.viol = append(out.viol, proto.Violation{Class: "deadlock", Task: -1, Op: -1,
-				Detail: "every unfinished task is blocked on a library lock / once and nobody can make progress"})
+			d := "every unfinished task is blocked on a library lock / once / channel and nobody can make progress"
+			if out.sim.Steps > 50_000_000 {
+				d = fmt.Sprintf("the run executed more than %d yields without finishing (livelock); last yield sites: %v", out.sim.Steps, simrt.LivelockSites[:16])
+			}
+			out.viol = append(out.viol, proto.Violation{Class: "deadlock", Task: -1, Op: -1, Detail: d})
 			return out
 		}
 		wg.Wait()
